@@ -812,8 +812,6 @@ Proof. intros H Ht. unfold top_methods. apply filter_In. split; [exact H|exact H
 
 Lemma locked_accesses_ok_true : locked_accesses_ok = true.
 Proof. vm_compute. reflexivity. Qed.
-Lemma unlocked_exceptions_real_true : unlocked_exceptions_real = true.
-Proof. vm_compute. reflexivity. Qed.
 Lemma balanced_ok_true : balanced_ok = true.
 Proof. vm_compute. reflexivity. Qed.
 Lemma no_relock_true : no_relock = true.
@@ -822,11 +820,9 @@ Lemma fuel_enough_true : fuel_enough = true.
 Proof. vm_compute. reflexivity. Qed.
 Lemma write_methods_ok_true : write_methods_ok = true.
 Proof. vm_compute. reflexivity. Qed.
-Lemma write_exceptions_real_true : write_exceptions_real = true.
-Proof. vm_compute. reflexivity. Qed.
 Lemma mutations_ok_true : mutations_ok = true.
 Proof. vm_compute. reflexivity. Qed.
-Lemma read_locked_mutation_exceptions_real_true : read_locked_mutation_exceptions_real = true.
+Lemma readers_purge_ok_true : readers_purge_ok = true.
 Proof. vm_compute. reflexivity. Qed.
 
 Theorem fact_map_accesses_are_locked : fact_map_accesses_are_locked_statement.
@@ -835,9 +831,7 @@ Proof.
   pose proof locked_accesses_ok_true as H. unfold locked_accesses_ok in H.
   rewrite forallb_forall in H. specialize (H (m, evs) (in_top m evs Hin Htop)). cbn [fst snd] in H.
   rewrite forallb_forall in H. specialize (H t Ht). rewrite Hp in H. cbn [negb orb] in H.
-  unfold no_lock in H. destruct (te_held t) as [|x r] eqn:Eh.
-  - right. apply mem_pair_In. exact H.
-  - left. discriminate.
+  unfold no_lock in H. destruct (te_held t) as [|x r] eqn:Eh; discriminate.
 Qed.
 
 Theorem locks_balanced : locks_balanced_statement.
@@ -871,8 +865,7 @@ Proof.
   intros m evs Hin Htop Hw.
   pose proof write_methods_ok_true as H. unfold write_methods_ok in H. rewrite forallb_forall in H.
   specialize (H (m, evs) (in_top m evs Hin Htop)). cbn [fst snd] in H. rewrite Hw in H. cbn [negb orb] in H.
-  destruct (takes_write_lock m evs); [left; reflexivity|]. cbn [orb] in H.
-  apply orb_prop in H. destruct H as [H|H]; right; [left|right]; apply mem_str_In; exact H.
+  exact H.
 Qed.
 
 Theorem mutations_hold_write_lock : mutations_hold_write_lock_statement.
@@ -881,10 +874,23 @@ Proof.
   pose proof mutations_ok_true as H. unfold mutations_ok in H. rewrite forallb_forall in H.
   specialize (H (m, evs) (in_top m evs Hin Htop)). cbn [fst snd] in H.
   rewrite forallb_forall in H. specialize (H t Ht). rewrite Hm in H. cbn [negb orb] in H.
-  apply orb_prop in H. destruct H as [H|H]; [apply orb_prop in H; destruct H as [H|H]|].
-  - left. apply mem_str_In. exact H.
-  - right; left. apply mem_pair_In. exact H.
-  - right; right. apply mem_pair_In. exact H.
+  apply mem_str_In. exact H.
+Qed.
+
+Theorem readers_purge_under_write_lock : readers_purge_under_write_lock_statement.
+Proof.
+  pose proof readers_purge_ok_true as H. unfold readers_purge_ok in H.
+  apply andb_prop in H. destruct H as [H1 H2]. split; [|split].
+  - intros m Hm. rewrite forallb_forall in H1. specialize (H1 m Hm).
+    destruct (tlookup m lock_table) as [evs|]; [|discriminate].
+    rewrite existsb_exists in H1. destruct H1 as (t & Ht & Hp).
+    unfold is_purge_lock in Hp. apply andb_prop in Hp. destruct Hp as [Hp Hn].
+    apply andb_prop in Hp. destruct Hp as [Hp1 Hp2].
+    apply String.eqb_eq in Hp1, Hp2.
+    exists evs, t. repeat split; try assumption.
+    unfold no_lock in Hn. destruct (te_held t); [reflexivity|discriminate].
+  - vm_compute. reflexivity.
+  - vm_compute. reflexivity.
 Qed.
 
 (** ** The two phases of Add *)
@@ -1022,14 +1028,12 @@ Print Assumptions replay_all_spec.
 Print Assumptions check_conc_accept.
 Print Assumptions check_conc_reject.
 Print Assumptions fact_map_accesses_are_locked.
-Print Assumptions unlocked_exceptions_real_true.
 Print Assumptions locks_balanced.
 Print Assumptions fuel_enough_true.
 Print Assumptions hook_lock_context.
 Print Assumptions write_methods_take_write_lock.
-Print Assumptions write_exceptions_real_true.
 Print Assumptions mutations_hold_write_lock.
-Print Assumptions read_locked_mutation_exceptions_real_true.
+Print Assumptions readers_purge_under_write_lock.
 Print Assumptions add_phases_match_source.
 Print Assumptions same_id_adds_can_diverge_counterexample.
 Print Assumptions same_id_divergence_count.
